@@ -190,6 +190,73 @@ func checkEscapeAgreement(p *Prog, r *Result, rule string) {
 		}
 		return true
 	})
+	// runes Quote protects with a backslash followed by the rune itself (`'` and `\\` inside $'…'): the reader's clause
+	// for that rune must write the rune and nothing else — no backslash, under no condition
+	ast.Inspect(fd.Body, func(nd ast.Node) bool {
+		cc, ok := nd.(*ast.CaseClause)
+		if !ok || len(cc.Body) < 2 {
+			return true
+		}
+		var runes []int64
+		for _, e := range cc.List {
+			if b, ok := ast.Unparen(e).(*ast.BinaryExpr); ok && b.Op == token.EQL {
+				if v, ok := charOf(sinfo, b.Y); ok {
+					runes = append(runes, v)
+				}
+			}
+		}
+		if len(runes) == 0 {
+			return true
+		}
+		// body: write '\\' then write the rune variable
+		first, isExpr := cc.Body[0].(*ast.ExprStmt)
+		if !isExpr {
+			return true
+		}
+		c0, isCall := first.X.(*ast.CallExpr)
+		if !isCall || len(c0.Args) != 1 {
+			return true
+		}
+		if v, ok := charOf(sinfo, c0.Args[0]); !ok || v != '\\' {
+			return true
+		}
+		second, isExpr := cc.Body[1].(*ast.ExprStmt)
+		if !isExpr {
+			return true
+		}
+		c1, isCall := second.X.(*ast.CallExpr)
+		if !isCall || len(c1.Args) != 1 {
+			return true
+		}
+		if _, isConst := charOf(sinfo, c1.Args[0]); isConst {
+			return true
+		}
+		for _, rn := range runes {
+			n++
+			key := fmt.Sprintf("syntax.Quote#escape backslash + %q", string(rune(rn)))
+			rcc := rd.letters[rn]
+			if rcc == nil {
+				r.Bad(rule, key, cc.Pos(), fmt.Sprintf("Quote writes a backslash before %q inside $'…' but the reader's escape switch has no case for it", string(rune(rn))))
+				continue
+			}
+			writesBackslash := false
+			for _, st := range rcc.Body {
+				ast.Inspect(st, func(x ast.Node) bool {
+					if c, ok := x.(*ast.CallExpr); ok {
+						for _, a := range c.Args {
+							if v, ok := charOf(einfo, a); ok && v == '\\' {
+								writesBackslash = true
+							}
+						}
+					}
+					return true
+				})
+			}
+			r.Check(!writesBackslash, rule, key, cc.Pos(), "the reader's clause writes the character itself and no backslash",
+				fmt.Sprintf("the reader's clause for %q can write a backslash as well: what Quote escaped as \\%s comes back with the backslash", string(rune(rn)), string(rune(rn))))
+		}
+		return true
+	})
 	if n == 0 {
 		r.Undecided(rule, "syntax.Quote#escapes", fd.Pos(), "no escape constants found in Quote")
 	}
@@ -283,4 +350,135 @@ func checkRuneErrorWidth(p *Prog, r *Result, rule string) {
 	if n == 0 {
 		r.Notef("%s: Quote does not compare with utf8.RuneError", rule)
 	}
+}
+
+// R13h: Quote has four ways of answering: the string itself (R13b), the $'…' form, single quotes around a string
+// without single quotes, and the double-quote fallback. Every non-error return is one of those shapes — the parameter,
+// a builder's String(), or `'` + parameter + `'` — and the last builder return (the double-quote fallback) is reached
+// only through the escaping loop: a shortcut that wraps the string in double quotes without visiting every rune leaves
+// backslashes, and with them the closing quote, unprotected.
+func checkQuoteReturns(p *Prog, r *Result, rule string) {
+	pkg := p.Pkg("syntax")
+	info := pkg.TypesInfo
+	fd := p.FuncDecl("syntax", "Quote")
+	if fd == nil {
+		return
+	}
+	param := info.Defs[fd.Type.Params.List[0].Names[0]]
+	var rets []*ast.ReturnStmt
+	inspectNoLit(fd.Body, func(n ast.Node) bool {
+		if rs, ok := n.(*ast.ReturnStmt); ok && len(rs.Results) == 2 && isNilIdent(info, rs.Results[1]) {
+			rets = append(rets, rs)
+		}
+		return true
+	})
+	isParam := func(e ast.Expr) bool {
+		id, ok := ast.Unparen(e).(*ast.Ident)
+		return ok && info.ObjectOf(id) == param
+	}
+	isConstStr := func(e ast.Expr, want string) bool {
+		tv, ok := info.Types[e]
+		return ok && tv.Value != nil && tv.Value.Kind() == constant.String && constant.StringVal(tv.Value) == want
+	}
+	var lastBuilder *ast.ReturnStmt
+	seen := map[string]int{}
+	for _, rs := range rets {
+		e := ast.Unparen(rs.Results[0])
+		shape := ""
+		if tv, ok := info.Types[e]; ok && tv.Value != nil {
+			shape = "a constant (the empty string's quoting)"
+		}
+		switch x := e.(type) {
+		case *ast.Ident:
+			if isParam(x) {
+				shape = "the string itself"
+			}
+		case *ast.CallExpr:
+			if sel, ok := x.Fun.(*ast.SelectorExpr); ok && sel.Sel.Name == "String" && len(x.Args) == 0 {
+				shape = "a builder's String()"
+				lastBuilder = rs
+			}
+		case *ast.BinaryExpr:
+			// '…' + s + '…'
+			if inner, ok := ast.Unparen(x.X).(*ast.BinaryExpr); ok && x.Op == token.ADD && inner.Op == token.ADD &&
+				isConstStr(inner.X, "'") && isParam(inner.Y) && isConstStr(x.Y, "'") {
+				shape = "single quotes around the string"
+			}
+		}
+		key := "syntax.Quote#return " + shortExpr(e)
+		seen[key]++
+		if seen[key] > 1 {
+			key += fmt.Sprintf("#%d", seen[key])
+		}
+		r.Check(shape != "", rule, key, rs.Pos(), shape,
+			"Quote returns a word built in a way the rule does not know (not the string itself, a builder's contents, or single quotes around it): a shortcut that adds quotes without visiting every rune of the string leaves the characters that are special inside those quotes unescaped")
+	}
+	if lastBuilder == nil {
+		r.Undecided(rule, "syntax.Quote#double-quote fallback return", fd.Pos(), "no return of a builder's String() found")
+		return
+	}
+	// the last builder return is dominated by the loop whose switch lists '"'
+	var loop ast.Stmt
+	ast.Inspect(fd.Body, func(n ast.Node) bool {
+		var body *ast.BlockStmt
+		switch x := n.(type) {
+		case *ast.RangeStmt:
+			body = x.Body
+		case *ast.ForStmt:
+			body = x.Body
+		default:
+			return true
+		}
+		ast.Inspect(body, func(m ast.Node) bool {
+			if cc, ok := m.(*ast.CaseClause); ok {
+				for _, ce := range cc.List {
+					if tv, ok := info.Types[ce]; ok && tv.Value != nil && tv.Value.Kind() == constant.Int {
+						if v, _ := constant.Int64Val(tv.Value); v == '"' {
+							if sw := enclosingSwitchWithTag(body, cc); sw {
+								loop = n.(ast.Stmt)
+							}
+						}
+					}
+				}
+			}
+			return true
+		})
+		return true
+	})
+	if loop == nil {
+		r.Undecided(rule, "syntax.Quote#double-quote escaping loop", fd.Pos(), "no loop with a switch listing '\"' found")
+		return
+	}
+	g := NewFGraph(info, fd.Body, nil)
+	rb, _ := g.BlockOf(lastBuilder)
+	inLoop := map[*FBlock]bool{}
+	for _, b := range g.Blocks {
+		if b.Stmt == loop {
+			inLoop[b] = true
+		}
+		for _, n := range b.Nodes {
+			if loop.Pos() <= n.Pos() && n.End() <= loop.End() {
+				inLoop[b] = true
+			}
+		}
+	}
+	reach := g.Reachable(g.Entry, func(e *FEdge) bool { return !inLoop[e.From] && !inLoop[e.To] })
+	r.Check(rb != nil && !reach[rb], rule, "syntax.Quote#double-quote fallback goes through the escaping loop", lastBuilder.Pos(), "every path to the final return passes the loop that escapes the runes special inside double quotes",
+		"the double-quoted result can be returned without going through the escaping loop")
+}
+
+// enclosingSwitchWithTag reports whether cc belongs to a switch with a tag expression inside body.
+func enclosingSwitchWithTag(body *ast.BlockStmt, cc *ast.CaseClause) bool {
+	found := false
+	ast.Inspect(body, func(n ast.Node) bool {
+		if sw, ok := n.(*ast.SwitchStmt); ok && sw.Tag != nil {
+			for _, s := range sw.Body.List {
+				if s == ast.Stmt(cc) {
+					found = true
+				}
+			}
+		}
+		return true
+	})
+	return found
 }
